@@ -1,6 +1,7 @@
 import Cirbo.Proofs.GenArith
 import Cirbo.Proofs.GenDiv
 import Cirbo.Proofs.GenSqrt
+import Cirbo.Proofs.GenReturns
 /-!
 # C09 — Subtraction, comparison and gadget generators are exact
 
@@ -15,7 +16,8 @@ import Cirbo.Proofs.GenSqrt
 -- OBLIGATION: c09_outputs_only_when_asked
 -- OBLIGATION: c09_div_mod
 -- OBLIGATION: c09_sqrt
--- PARTIAL: every clause is proved on the model (add_div_mod: restoring-division invariant a = Q*2^i*b + rem, rem < b*2^i through the descending loop, OR-prefixes of the divisor, zero-divisor masking; add_sqrt: digit-by-digit invariant c = rho*4^j, x = a - rho^2*4^j, a < (rho+1)^2*4^j, no overflow of the trial subtrahend). add_equal is proved for width >= 1 (width 0 is outside the stated domain: every other generator rejects it). What remains by correspondence only: the tie between the model programs and the Python generators (gate for gate on every run). Fuel-free: none of these generators uses fuel. Proofs/GenSqrt.lean uses Mathlib's `ring` tactic (no extra axioms).
+-- OBLIGATION: c09_generators_return
+-- PARTIAL: every clause is proved on the model (add_div_mod: restoring-division invariant a = Q*2^i*b + rem, rem < b*2^i through the descending loop, OR-prefixes of the divisor, zero-divisor masking; add_sqrt: digit-by-digit invariant c = rho*4^j, x = a - rho^2*4^j, a < (rho+1)^2*4^j, no overflow of the trial subtrahend). add_equal is proved for width >= 1 (width 0 is outside the stated domain: every other generator rejects it). Totality is proved too (c09_generators_return, Proofs/GenTotal*.lean): on valid arguments every generator of this property returns — no shape error, no clashing label, no mark of a non-gate — or stops because the 128-bit space of random labels is exhausted; one necessary extra condition for add_pairwise_if_then_else with caller-given result labels (no given label is one the generator draws later; ca_pairIte_collision exhibits the failing run). What remains by correspondence only: the tie between the model programs and the Python generators (gate for gate on every run). Proofs/GenSqrt.lean uses Mathlib's `ring` tactic (no extra axioms).
 -/
 namespace Cirbo
 
@@ -216,5 +218,55 @@ theorem c09_sqrt {st st' : GSt} {x out : List Label} {be : Bool}
 #print axioms c09_outputs_only_when_asked
 #print axioms c09_div_mod
 #print axioms c09_sqrt
+
+/-- **every generator of this property returns on valid arguments** (operands are gates of the host circuit,
+widths ≥ 1, equal lengths where the code checks them; result labels given by the caller are not gates and
+pairwise different) — or stops because the 128-bit space of random labels is exhausted.  For
+`add_pairwise_if_then_else` with caller-given result labels one more condition is needed and is necessary: no
+given label may be a label the generator draws later (`ca_NF`; with real `uuid4` labels a 122-bit collision —
+`ca_pairIte_collision` is the closed run of the model that fails without it, and the Python code fails the same
+way under the pinned counter). -/
+theorem c09_generators_return (st : GSt) :
+    (∀ x1 x2 be, x1 ∈ st.c.labels → x2 ∈ st.c.labels → Returns (addSub2 [x1, x2] be) st (fun r => r.length = 2)) ∧
+    (∀ x0 x1 x2 be, x0 ∈ st.c.labels → x1 ∈ st.c.labels → x2 ∈ st.c.labels →
+      Returns (addSub3 [x0, x1, x2] be) st (fun r => r.length = 2)) ∧
+    (∀ a b be, (∀ l ∈ a, l ∈ st.c.labels) → (∀ l ∈ b, l ∈ st.c.labels) → a ≠ [] → b ≠ [] →
+      Returns (addSubTwoNumbers a b be) st (fun r => r.length = a.length)) ∧
+    (∀ a b be, (∀ l ∈ a, l ∈ st.c.labels) → (∀ l ∈ b, l ∈ st.c.labels) → a ≠ [] → b ≠ [] →
+      Returns (addSubtractWithCompare a b be) st (fun r => r.1.length = max a.length b.length)) ∧
+    (∀ ins (num : Int), (∀ l ∈ ins, l ∈ st.c.labels) → Returns (addEqualZ ins num) st (fun _ => True)) ∧
+    (∀ ins rl ao be, (∀ l ∈ ins, l ∈ st.c.labels) → ins ≠ [] →
+      (∀ g, rl = some g → g ≠ [] ∧ g.Nodup ∧ ∀ l ∈ g, l ∉ st.c.labels) →
+      Returns (addPlusOne ins rl ao be) st (fun r => (∀ g, rl = some g → r = g) ∧ (rl = none → r.length = ins.length + 1))) ∧
+    (∀ i t e rl ao, i ∈ st.c.labels → t ∈ st.c.labels → e ∈ st.c.labels → (∀ res, rl = some res → res ∉ st.c.labels) →
+      Returns (addIfThenElse i t e rl ao) st (fun a => ∀ res, rl = some res → a = res)) ∧
+    (∀ is ts es rl ao, (∀ l ∈ is, l ∈ st.c.labels) → (∀ l ∈ ts, l ∈ st.c.labels) → (∀ l ∈ es, l ∈ st.c.labels) →
+      is.length = ts.length → ts.length = es.length →
+      (∀ g, rl = some g → g.length = is.length ∧ g.Nodup ∧ ∀ l ∈ g, l ∉ st.c.labels ∧ ca_NF st l) →
+      Returns (addPairwiseIfThenElse is ts es rl ao) st (fun r => (∀ g, rl = some g → r = g) ∧ r.length = is.length)) ∧
+    (∀ xs ys rl ao, (∀ l ∈ xs, l ∈ st.c.labels) → (∀ l ∈ ys, l ∈ st.c.labels) → xs.length = ys.length →
+      (∀ g, rl = some g → g.length = xs.length ∧ g.Nodup ∧ ∀ l ∈ g, l ∉ st.c.labels) →
+      Returns (addPairwiseXor xs ys rl ao) st (fun r => (∀ g, rl = some g → r = g) ∧ r.length = xs.length)) ∧
+    (∀ a b be, (∀ l ∈ a, l ∈ st.c.labels) → (∀ l ∈ b, l ∈ st.c.labels) → a.length = b.length → 1 ≤ a.length →
+      Returns (addDivMod a b be) st (fun r => r.1.length = a.length ∧ r.2.length = a.length)) ∧
+    (∀ ins be, (∀ l ∈ ins, l ∈ st.c.labels) → 1 ≤ ins.length →
+      Returns (addSqrt ins be) st (fun r => r.length = (ins.length + 1) / 2)) := by
+  have hinv := Inv.nil st
+  have hk := kn_labels st
+  refine ⟨?_, ?_, ?_, ?_, ?_, ?_, ?_, ?_, ?_, ?_, ?_⟩
+  · intro x1 x2 be h1 h2; exact returns_of_ok (ca_ok_addSub2 (be := be) hinv hk h1 h2)
+  · intro x0 x1 x2 be h0 h1 h2; exact returns_of_ok (ca_ok_addSub3 (be := be) hinv hk h0 h1 h2)
+  · intro a b be ha hb hna hnb; exact returns_of_ok (ca_ok_addSubTwoNumbers (be := be) hinv hk ha hb hna hnb)
+  · intro a b be ha hb hna hnb; exact returns_of_ok (ca_ok_addSubtractWithCompare (be := be) hinv hk ha hb hna hnb)
+  · intro ins num hi; exact returns_of_ok (ca_ok_addEqualZ (num := num) hinv hk hi)
+  · intro ins rl ao be hi hne hrl; exact returns_of_ok (ca_ok_addPlusOne (ao := ao) (be := be) hinv hk hi hne hrl)
+  · intro i t e rl ao hi ht he hres; exact returns_of_ok (ca_ok_addIfThenElse (ao := ao) hinv hk hi ht he hres)
+  · intro is ts es rl ao hi ht he h1 h2 hrl
+    exact returns_of_ok (ca_ok_addPairwiseIfThenElse (ao := ao) hinv hk hi ht he h1 h2 hrl)
+  · intro xs ys rl ao hx hy h1 hrl; exact returns_of_ok (ca_ok_addPairwiseXor (ao := ao) hinv hk hx hy h1 hrl)
+  · intro a b be ha hb hlen hpos; exact returns_of_ok (ok_addDivMod (be := be) hinv hk ha hb hlen hpos)
+  · intro ins be hi hpos; exact returns_of_ok (ok_addSqrt (be := be) hinv hk hi hpos)
+
+#print axioms c09_generators_return
 
 end Cirbo
